@@ -188,6 +188,11 @@ DIRECTED = [
                                  "w@bsp.worker.dequeued:p1:2", "w@bsp.worker.appended:p1:2", "w@bsp.worker.dequeued:p1:3",
                                  "w@bsp.worker.appended:p1:3", "x@exp.begin", "x@exp.end", "f1@bsp.ff.flushed"] +
          ends("p1:4") + ["w@bsp.worker.dequeued:p1:4", "w@bsp.worker.appended:p1:4", "x@exp.begin", "x@exp.end", "s1@call"]),
+    # ---- free-running (empty script, no jitter): four Shutdown calls race for sync.Once. The caller that runs the body
+    # is not always the one whose call began first (about 2 in 1000): BSP.tla's SCall / SOnce are two steps because
+    # the implementation-level trace validation could not explain `bsp.sd.stopped` passed by a later caller
+    dict(name="racing-shutdowns", producers=1, spansPer=1, qcap=2, maxbatch=2, flushers=0, stoppers=4, perturb=0.9, reps=100,
+         script=[]),
     dict(name="timer-vs-shutdown", producers=1, spansPer=2, qcap=4, maxbatch=4, flushers=0, stoppers=1, batchTimeoutUs=1500,
          script=ends("p1:1") + ["w@bsp.worker.dequeued:p1:1", "w@bsp.worker.appended:p1:1", "x@exp.begin"] + ends("p1:2") +
          ["s1@call", "s1@bsp.sd.stopped", "s1@bsp.sd.closed", "x@exp.end", "w@bsp.drain.empty"]),
@@ -207,11 +212,19 @@ MODEL_KINDS = set(MODEL2CONTRACT.values()) | {"flush-missed", "shutdown-missed",
 IMPL_KEY = ("producers", "spansPer", "qcap", "maxbatch", "blocking", "exportTimeout", "flushers", "stoppers", "expiring")
 
 
-def impl_validate(ctx, sources, contract_kinds, max_groups, per_group, jobs=6, max_lines=12000):
+def once_overtaken(recs):
+    """the Shutdown call that ran the sync.Once body is not the one whose Call line came first"""
+    first = next((r["proc"] for r in recs if r["ev"] == "Call" and r.get("op") == "SD"), None)
+    body = next((r["proc"] for r in recs if r["ev"] == "Pt" and r["point"] == "bsp.sd.stopped"), None)
+    return first is not None and body is not None and first != body
+
+
+def impl_validate(ctx, sources, contract_kinds, max_groups, per_group, jobs=6, max_lines=12000, prefer=once_overtaken, nprefer=3):
     """Trace_BSPImpl.tla: a sample of the recorded scenarios must be explainable by BSP.tla's own actions.
     sources = [(trace file, "scripts" | "random")]; max_groups / per_group = {"behaviours" | "directed" | "random": n}. Scenarios are grouped by their constants
     (one TLC start per group, LCfg resets the state between scenarios). Drift (a scenario no sequence of model
-    actions explains) is evidence, never a verdict."""
+    actions explains) is evidence, never a verdict. Scenarios for which `prefer` holds (rare interleavings that once
+    showed a coarseness of BSP.tla) are added to the seeded sample, at most `nprefer` per source."""
     t0 = time.time()
     scen, cfgs, work = {}, {}, []
     stats = {"eligible": {}, "scenarios": 0, "accepted": 0, "drift_count": 0, "drift": [], "monitor": [], "errors": [],
@@ -258,6 +271,14 @@ def impl_validate(ctx, sources, contract_kinds, max_groups, per_group, jobs=6, m
                 if chunk:
                     work.append((sub, chunk))
                 n += len(ks)
+            chosen = {k for lb, ch in work if lb == sub for k in ch}
+            extra = {}
+            for k in [k for k in el if k not in chosen and prefer([r for _, r in scen[k]])][:nprefer]:
+                extra.setdefault(json.dumps([cfgs[k][x] for x in IMPL_KEY]), []).append(k)
+            for ks in extra.values():
+                work.append((sub, ks))
+                n += len(ks)
+            stats["preferred"] = stats.get("preferred", 0) + sum(len(ks) for ks in extra.values())
             stats["by_source"][sub] = {"scenarios": n, "accepted": 0, "drift": 0}
             stats["scenarios"] += n
     stats["groups"] = len(work)
@@ -364,6 +385,25 @@ def run(ctx):
     thorough = ctx.tier == "thorough"
     binp = ctx.go_build("c01")
     # ------------------------------------------------------------ exhaustive model checking
+    # liveness under fairness: every call returns and every background goroutine finishes, with queues that fill
+    # (these runs and the SSP one feed nothing else: they run beside the safety family below and are collected --
+    # with their verdicts -- before the real code is driven, so that the harness has the machine to itself)
+    live = [(2, 1, 1, 1, True, 1, 1), (2, 1, 1, 1, False, 1, 1)]
+    if thorough:
+        live += [(1, 3, 1, 1, True, 1, 1), (2, 1, 2, 1, False, 1, 2)]  # (2x2 blocking with a flusher: 1.8 M states, 14 min)
+    # growth: the simple span processor obeys the same contract (SSP.tla, safety + liveness)
+    ssp = {"PRODUCERS": tla_set(["p1", "p2", "p3"] if thorough else ["p1", "p2"]), "STOPPERS": tla_set(["s1", "s2"]),
+           "SPANSPER": 2}
+
+    def side_runs():
+        for c in live:
+            ctx.tlc(S, "MC_BSP", "MC_BSP_live.cfg", defines=mc_defs(*c), name="live-" + cfg_name(*c), timeout=3000)
+        ctx.tlc(S, "MC_BSP", "MC_BSP_live.cfg", defines=mc_defs(1, 1, 1, 1, True, 1, 1, expiring=("f1", "s1")),
+                name="live-expiring", timeout=3000)
+        ctx.tlc(S, "MC_SSP", "MC_SSP.cfg", defines=ssp, name="mc-ssp", timeout=1200)
+    side_pool = ThreadPoolExecutor(max_workers=1)
+    side = side_pool.submit(side_runs)
+
     # (p, k, q, b, blocking, f, s, extra): every config checks the contract, the accounting of the hook events
     # and `Stuck` (nothing blocks forever) for the current code shape
     fam = [((2, 1, 1, 1, False, 1, 1), {}), ((2, 1, 1, 1, True, 1, 1), {}), ((2, 1, 2, 2, False, 1, 2), {}),
@@ -420,19 +460,8 @@ def run(ctx):
     if r["violated"] != "NoDup":
         ctx.note_inconclusive("model drift: keeping the batch after a failed export does not violate NoDup (%s)" % r["out"])
     ctx.extra["model_level_regressions"] = found
-    # liveness under fairness: every call returns and every background goroutine finishes, with queues that fill
-    live = [(2, 1, 1, 1, True, 1, 1), (2, 1, 1, 1, False, 1, 1)]
-    if thorough:
-        live += [(1, 3, 1, 1, True, 1, 1), (2, 1, 2, 1, False, 1, 2)]  # (2x2 blocking with a flusher: 1.8 M states, 14 min)
-    for c in live:
-        ctx.tlc(S, "MC_BSP", "MC_BSP_live.cfg", defines=mc_defs(*c), name="live-" + cfg_name(*c), timeout=3000)
-    ctx.tlc(S, "MC_BSP", "MC_BSP_live.cfg", defines=mc_defs(1, 1, 1, 1, True, 1, 1, expiring=("f1", "s1")),
-            name="live-expiring", timeout=3000)
-
-    # growth: the simple span processor obeys the same contract (SSP.tla, safety + liveness)
-    ssp = {"PRODUCERS": tla_set(["p1", "p2", "p3"] if thorough else ["p1", "p2"]), "STOPPERS": tla_set(["s1", "s2"]),
-           "SPANSPER": 2}
-    ctx.tlc(S, "MC_SSP", "MC_SSP.cfg", defines=ssp, name="mc-ssp", timeout=1200)
+    side.result()     # liveness / SSP runs started above (a model-level failure there raises Inconclusive here)
+    side_pool.shutdown()
 
     # ------------------------------------------------------------ spec -> code: behaviours as gate scripts
     scenarios = []
